@@ -404,9 +404,14 @@ def build_classes(world, hooks=None):
     return built
 
 
-def build_free(ent):
+def build_free(ent, enums=None):
     if ent.get("kind") == "enum":
-        raise ValueError("free enum not supported")
+        key = ("", ent["id"])
+        if enums is not None and key not in enums:
+            enums[key] = enum.IntEnum("E_free_%s" % ent["id"], {("v%d" % v).replace("-", "m"): v for v in ent["values"]})
+        et = enums[key]
+        init = et(ent.get("init", ent["values"][0]))
+        return (vsc.rand_enum_t if ent["rand"] else vsc.enum_t)(et, i=init)
     if ent["rand"]:
         t = vsc.rand_int_t if ent["signed"] else vsc.rand_bit_t
     else:
